@@ -2,6 +2,16 @@
 import core
 import docs
 
+# every spelling other than "unsigned" is a signed (two's complement) integer to the library
+SIGNED_SPELLINGS = ["signed", "twosComplement", "twosCompliment", "signMagnitude", "onesComplement"]
+# namespace prefixes, including ones that are the beginning of an XTCE element name (Unit, LongDescription, Term, Parameter, ...)
+PREFIXES = ["xtce", "x", "Unit", "Long", "T", "P", "C", "S", "E", "H", "ns1", "Parameter"]
+
+
+def rnd_prefix(rng):
+    return ("prefix", rng.choice(PREFIXES))
+
+
 HDR = [("VERSION", 3), ("TYPE", 1), ("SEC_HDR_FLG", 1), ("PKT_APID", 11), ("SEQ_FLGS", 2), ("SRC_SEQ_CTR", 14), ("PKT_LEN", 16)]
 
 
@@ -17,10 +27,11 @@ def rnd_user_param(rng, name, earlier_ints):
     r = rng.random()
     if r < 0.30:
         size = rng.choice([3, 5, 8, 8, 12, 16, 32])
-        return {"name": name, "type": int_type(name, size, rng.choice(["unsigned", "signed"]),
+        return {"name": name, "type": int_type(name, size, rng.choice(["unsigned", "unsigned"] + SIGNED_SPELLINGS),
                                                order=rng.choice(["msb", "lsb"]) if size % 8 == 0 else "msb")}, size <= 16
     if r < 0.40:
-        size, kind = rng.choice([(16, "IEEE754"), (32, "IEEE754"), (64, "IEEE754"), (32, "MILSTD_1750A")])
+        size, kind = rng.choice([(16, "IEEE754"), (32, "IEEE754"), (64, "IEEE754"), (32, "MILSTD_1750A"),
+                                 (16, "IEEE754_1985"), (32, "IEEE754_1985"), (64, "IEEE754_1985")])
         return {"name": name, "type": {"name": name + "_T", "kind": "float",
                                        "enc": {"t": "num", "size": size, "kind": kind, "order": rng.choice(["msb", "lsb"]), "default": None, "context": None}}}, False
     if r < 0.50:
@@ -33,10 +44,16 @@ def rnd_user_param(rng, name, earlier_ints):
                           ["spline", 1, True, [[docs.fnum(0.0), docs.fnum(0.0)], [docs.fnum(10.0), docs.fnum(5.0)], [docs.fnum(255.0), docs.fnum(100.0)]]],
                           ["spline", 0, True, [[docs.fnum(0.0), docs.fnum(1.5)], [docs.fnum(128.0), docs.fnum(2.5)]]]])
         ctx = None
-        if earlier_ints and rng.random() < 0.5:
-            ref = rng.choice(earlier_ints)
-            ctx = [{"criteria": [["cmp", {"ref": ref, "op": rng.choice(["==", ">=", "<"]), "lit": str(rng.choice([0, 1, 2])), "cal": False}]],
-                    "cal": ["poly", [[docs.fnum(3.0), 1]]]}]
+        if rng.random() < 0.6:
+            # contexts over an earlier user integer or over header fields (always present), one or two of them, so that
+            # "first match", "no match with a default" and "no match without a default" all occur
+            pool = (earlier_ints or []) + ["SEQ_FLGS", "TYPE", "SEC_HDR_FLG"]
+            ctx = []
+            for _c in range(rng.choice([1, 1, 2])):
+                ref = rng.choice(pool)
+                ctx.append({"criteria": [["cmp", {"ref": ref, "op": rng.choice(["==", ">=", "<", "!="]), "lit": str(rng.choice([0, 1, 2, 3])), "cal": False}]],
+                            "cal": rng.choice([["poly", [[docs.fnum(3.0), 1]]], ["poly", [[docs.fnum(0.5), 1], [docs.fnum(7.0), 0]]],
+                                               ["spline", 0, False, [[docs.fnum(0.0), docs.fnum(-1.0)], [docs.fnum(64.0), docs.fnum(9.0)], [docs.fnum(255.0), docs.fnum(11.0)]]]])})
         return {"name": name, "type": int_type(name, 8, default=cal if rng.random() < 0.8 else None, context=ctx,
                                                tkind=rng.choice(["int", "int", "abstime"]))}, False
     if r < 0.80:   # binary
